@@ -327,7 +327,7 @@ def mechanism(io, ai, v, kind, events, masks):
     """Locus key: the mechanism that let the value through.
     masks: the slot accepts values far outside any reading of its field (|v| >= 2^(n+1)): the value is masked before it reaches a range check."""
     if io.field is not None and io.field.concat:
-        return "bit_concat/no-range-check"
+        return "bit_concat/no-range-check/%s/%s" % (family(ai, io.ci.cls), owner_of(io))
     if masks:
         return "encode-masks/%s/%s" % (family(ai, io.ci.cls), owner_of(io))
     for e in events:
@@ -344,9 +344,9 @@ def mechanism(io, ai, v, kind, events, masks):
             if v < 0:
                 if v < -(1 << (e[1] - 1)):
                     return "token-field/wraps-negative-below-signed-min"
-                return "token-field/wraps-negative-into-unsigned-field"
+                return "token-field/wraps-negative-into-unsigned-field/%s/%s" % (family(ai, io.ci.cls), owner_of(io))
             if v >= (1 << (e[1] - 1)):
-                return "token-field/signed-field-accepts-unsigned-range"
+                return "token-field/signed-field-accepts-unsigned-range/%s/%s" % (family(ai, io.ci.cls), owner_of(io))
     return "encode/%s/%s/%s" % (family(ai, io.ci.cls), owner_of(io), kind)
 
 
